@@ -430,3 +430,11 @@ mod tests {
         assert_eq!(active, active_only);
     }
 }
+
+#[cfg(rs_matter_verif)]
+impl RetransEntry {
+    /// Verification hook: the number of retransmissions performed so far.
+    pub fn verif_counter(&self) -> u16 {
+        self.counter
+    }
+}
